@@ -129,10 +129,12 @@ class _ExecutorWrapper[**Args, Result]:
         **kwargs: Args.kwargs,
     ) -> Result:
         context: Context = copy_context()
-        return await (self._loop or get_running_loop()).run_in_executor(
-            self._executor,
-            context.run,
-            partial(self._function, *args, **kwargs),
+        return _unpack(
+            await (self._loop or get_running_loop()).run_in_executor(
+                self._executor,
+                context.run,
+                partial(_outcome, partial(self._function, *args, **kwargs)),
+            )
         )
 
     def __get__(
@@ -160,11 +162,37 @@ class _ExecutorWrapper[**Args, Result]:
         **kwargs: Args.kwargs,
     ) -> Result:
         context: Context = copy_context()
-        return await (self._loop or get_running_loop()).run_in_executor(
-            self._executor,
-            context.run,
-            partial(self._function, __method_self, *args, **kwargs),
+        return _unpack(
+            await (self._loop or get_running_loop()).run_in_executor(
+                self._executor,
+                context.run,
+                partial(_outcome, partial(self._function, __method_self, *args, **kwargs)),
+            )
         )
+
+
+def _outcome[Result](
+    call: Callable[[], Result],
+    /,
+) -> tuple[Result | None, BaseException | None]:
+    # runs within the executor - the raised exception is carried back as a value,
+    # executor futures recreate some exceptions (i.e. TimeoutError) instead of passing the raised instance
+    try:
+        return (call(), None)
+
+    except BaseException as exc:
+        return (None, exc)
+
+
+def _unpack[Result](
+    outcome: tuple[Result | None, BaseException | None],
+    /,
+) -> Result:
+    result, exception = outcome
+    if exception is not None:
+        raise exception
+
+    return cast(Result, result)
 
 
 def _mimic_async[**Args, Result](
